@@ -193,13 +193,18 @@ def isBadTrailer (key : Bytes) : Bool :=
     else if c = 119 then ciEq key strWWWAuthenticate
     else false
 
-/-- `Trailer.SetTrailers(value)`: the declared names (normalised, bad ones dropped) and whether the
-LAST non-empty element was rejected (the Go loop overwrites `err` on every element). -/
+/-- optional whitespace around a list element is SP / HTAB (`Trailer.AddTrailers` since 117944e) -/
+def stripOWS (b : Bytes) : Bytes :=
+  ((b.dropWhile (fun c => c == 32 || c == 9)).reverse.dropWhile (fun c => c == 32 || c == 9)).reverse
+
+/-- `Trailer.AddTrailers(value)` on an empty list (= `SetTrailers(value)`): the declared names (normalised, bad ones
+dropped) and whether the LAST non-empty element was rejected (the Go loop overwrites `err` on every element).  Several
+`Trailer` fields of one message combine: the callers append (117944e). -/
 def setTrailers (disableNorm : Bool) (v : Bytes) : List Bytes × Bool :=
   if v.isEmpty then ([], false) else
   let elems := splitOn 44 v
   let elems := if v.getLast? = some 44 then elems.dropLast else elems
-  let keys := (elems.map stripSpace).filter (fun e => !e.isEmpty) |>.map (normalizeKey disableNorm)
+  let keys := (elems.map stripOWS).filter (fun e => !e.isEmpty) |>.map (normalizeKey disableNorm)
   (keys.filter (fun k => !isBadTrailer k), match keys.getLast? with | some k => isBadTrailer k | none => false)
 
 end Hertz.H1
